@@ -22,6 +22,7 @@ func init() {
 			"(R4) Poll/Scan/Transition have their completion message on both sides (the client sends X-CompletionRequest, the server handler decodes the same type); " +
 			"(R5, staging compaction) the server omits the path list exactly when nothing was filtered (len(paths)==len(request.Paths)) and the client restores the full list exactly when the list is empty but signatures are present; the server then forwards exactly len(paths) transmissions — paths being what the endpoint's Stage returned — to the receiver the endpoint returned; the response carries Stage's signatures. " +
 			"(R7, rejection reasons) every wire-message validator of package remote rejects for exactly the reasons read and confirmed on the pinned tree — a new reason (e.g. a bound on the number of problems, which one transition can legitimately exceed) makes the remote endpoint fail where the local one succeeds, a dropped reason lets malformed messages through; " +
+			"(R8, baseline ownership) the serialized snapshot the client keeps as the baseline of the next scan's delta is the fresh result of the reconstructing call, never a view of a buffer that lives in the client and is rewritten by the next scan; " +
 			"Not decided: equality of the values returned through both paths; snapshot delta reconstruction (rsync, C19).",
 		Assumptions: []string{"protobuf encoding is lossless for valid messages"},
 		Run:         runC21,
@@ -30,6 +31,7 @@ func init() {
 
 func runC21(c *eng.Ctx) {
 	c21Validators(c)
+	c21Baseline(c)
 	fns := c.P.ModuleFuncs(remotePkg)
 	isPB := func(fn *ssa.Function) bool { return strings.Contains(c.P.Pos(fn.Pos()), ".pb.go:") }
 
